@@ -615,8 +615,9 @@ def targeted_cases(rng, n):
         sc = scenario.Scn().file("in0.chm", chm); fmt_ops("chm", sc, 8); out.append(Case("hostile:chm-overlong-member", "chm", sc))
     # (18) a compressed section of three reset intervals, the member of the last interval first: every host call fails in turn
     for i in range(1):
-        f1 = [(b"/c%d.bin" % j, [33000, 33000, 20000][j]) for j in range(3)]
-        chm, exp = chmfmt.build([(b"/index.html", b"<html>hi</html>")], f1, rng, chunk_size=4096, wbits=15, reset_frames=1, version=3)
+        f1 = [(b"/c%d.bin" % j, [3000, 67000, 75000][j]) for j in range(3)]
+        # (stored-type LZX blocks: a decoder started at the wrong place still decodes - to other bytes)
+        chm, exp = chmfmt.build([(b"/index.html", b"<html>hi</html>")], f1, rng, chunk_size=4096, wbits=16, reset_frames=2, version=3, lzx_btypes=[3])
         names = sorted(exp.keys(), key=chmfmt.sort_key)
         # (two short scenarios: the fault sweep injects at most the first 60 calls of each kind)
         sc = scenario.Scn().file("in0.chm", chm).op("chm_new").op("chm_open", "h1", "in0.chm").op("chm_extract", "h1", names.index(b"/c2.bin"), "out2").op("chm_extract", "h1", names.index(b"/c2.bin"), "out3").op("chm_extract", "h1", names.index(b"/c1.bin"), "out4").op("chm_close", "h1")
